@@ -1031,7 +1031,16 @@ def apply(it, fn, args, dest_ty, term, caller, depth, M):
         if el is None and isinstance(v, Ref):
             s2 = seq_of(it, v)
             el = list(s2[0].elems[s2[1]:s2[1] + s2[2]]) if s2 is not None else None
-        if el is None or not all(isinstance(e, Int) and ((e.is_conc() and e.val < 128) or any(t.startswith("r:") or t.startswith("rendered") for t in tags_of(e))) for e in el):
+        def ascii_ok(e):
+            if not isinstance(e, Int):
+                return False
+            if e.is_conc():
+                return e.val < 128
+            if any(t.startswith("r:") or t.startswith("rendered") for t in tags_of(e)):
+                return True
+            bits = list(e.getbits())
+            return len(bits) >= 8 and bits[7] is not TOP and len(bits[7]) == 0      # top bit provably 0: a single-byte character
+        if el is None or not all(ascii_ok(e) for e in el):
             return NotImplemented
         if name.endswith("unchecked"):
             return args[0]
